@@ -124,6 +124,25 @@ where
         });
         ctx.run("shifts", ctx.budget(QUICK, FACTOR), (neg_heavy, gen::amount(sh)), shifts::<I>);
     }));
+    jobs.push(Job::new(job_name::<U>("sweep"), move |ctx| {
+        let full = ctx.tier() == vlib::Tier::Thorough;
+        // EVERY amount 0..=W+1 (and a few beyond) on four fixed patterns
+        let w = sh.bits();
+        let pats = move || {
+            let mut alt = vec![0xa5u8; sh.bytes];
+            alt[0] = 0x01;
+            let mut top = vec![0u8; sh.bytes];
+            top[sh.bytes - 1] = 0x80;
+            let mut minp1 = top.clone();
+            minp1[0] = 1;
+            vec![Pat(vec![0xffu8; sh.bytes]), Pat(alt), Pat(top), Pat(minp1)]
+        };
+        let amounts = move || -> Vec<u32> { let mut v = positions(sh, full); v.extend([w, w + 1, 2 * w - 1, 2 * w, u32::MAX]); v };
+        let all = move || pats().into_iter().flat_map(move |p| amounts().into_iter().map(move |s| (p.clone(), s)));
+        ctx.enumerate("shifts_u", "4 patterns x every amount 0..=W+1", all(), shifts::<U>);
+        ctx.enumerate("shifts_i", "4 patterns x every amount 0..=W+1", all(), shifts::<I>);
+        ctx.enumerate("rotate_u", "4 patterns x every amount 0..=W+1", all(), rotate::<U>);
+    }));
     jobs.push(Job::new(job_name::<U>("rotate"), move |ctx| {
         ctx.run("rotate_u", ctx.budget(QUICK, FACTOR), (gen::pattern(sh), gen::amount(sh)), rotate::<U>);
         ctx.run("rotate_i", ctx.budget(QUICK / 2, FACTOR), (gen::pattern(sh), gen::amount(sh)), rotate::<I>);
@@ -162,7 +181,7 @@ fn main() {
     runner::main(
         Property {
             id: "C05",
-            rule: "Values are structured W-bit patterns (signed: half of the cases forced negative); amounts come from {0, 1, d-1, d, d+1, k*d, k*d+-1, W-1, W, W+1, 2W-1, 2W, u32::MAX, 2^k+W-1, uniform < W, uniform < 2W, uniform u32} with d = digit bits. Oracle: shl = (x*2^s) mod 2^W and shr = floor(x/2^s) in the reference integer, rotation = explicit bit permutation of the pattern; checked/overflowing/wrapping/strict/unchecked/unbounded forms, the << >> operators and const twins (in-range amounts), rotate_left/right and their inverse laws. The value of wrapping/overflowing shifts for s >= BITS is asserted only when BITS is a power of two (as the property states). NON-TRIVIAL: 0 < s < W with digit offset >= 1 and bit offset != 0, or s >= W, or a negative value shifted by s > 0; rotation: n mod W != 0 and (W not a power of two, or n >= W, or n not a multiple of the digit size). distinct = distinct (profile, job, inputs) by 64-bit hash. 8-bit configuration enumerated over all values x 49 amounts; BUintD8<3> over all rotation amounts 0..=72.",
+            rule: "Values are structured W-bit patterns (signed: half of the cases forced negative); amounts come from {0, 1, d-1, d, d+1, k*d, k*d+-1, W-1, W, W+1, 2W-1, 2W, u32::MAX, 2^k+W-1, uniform < W, uniform < 2W, uniform u32} with d = digit bits. Oracle: shl = (x*2^s) mod 2^W and shr = floor(x/2^s) in the reference integer, rotation = explicit bit permutation of the pattern; checked/overflowing/wrapping/strict/unchecked/unbounded forms, the << >> operators and const twins (in-range amounts), rotate_left/right and their inverse laws. The value of wrapping/overflowing shifts for s >= BITS is asserted only when BITS is a power of two (as the property states). NON-TRIVIAL: 0 < s < W with digit offset >= 1 and bit offset != 0, or s >= W, or a negative value shifted by s > 0; rotation: n mod W != 0 and (W not a power of two, or n >= W, or n not a multiple of the digit size). distinct = distinct (profile, job, inputs) by 64-bit hash. 8-bit configuration enumerated over all values x 49 amounts; BUintD8<3> over all rotation amounts 0..=72. A deterministic SWEEP additionally enumerates, per configuration, position-specific inputs (2^k - 1, 2^k, 2^k + 1 with their negations and complements; carry / borrow chains and power-of-two products ending at every bit position k; every shift / rotate amount; every bit index; every float exponent) - all positions on types up to 1088 bits, a sparse selection of a few hundred positions on wider types in the quick tier, all positions in the thorough tier.",
             assumptions: &[
                 "digits()/from_digits()/to_bits()/from_bits() are the trusted observation channel",
                 "unchecked_shl/shr are only called with s < BITS (their safety contract)",
